@@ -5,51 +5,95 @@
 From Coq Require Import List NArith ZArith Bool Arith.
 From Atlas Require Import Base.Bytes Diff.Schema Diff.DiffModel Diff.DiffSqlite
   Lex.DownModel Lex.DownProofs
-  Sqlite.PlanModel Sqlite.EngineModel Sqlite.InspectModel Sqlite.ReverseModel Sqlite.ReverseProofs.
+  Diff.DiffProofs Diff.DiffSqliteProofs
+  Sqlite.PlanModel Sqlite.EngineModel Sqlite.InspectModel Sqlite.ReverseModel Sqlite.ReverseProofs
+  Sqlite.ReverseDropProofs.
 Import ListNotations.
 
 (** ** 1. Up then down restores the start state (SQLite: M-SQLITE planner + abstract engine)
 
     Full statement:
       forall db from to cs p db1,  PlanChanges from to cs = Some p -> p_reversible p = true ->
-        exec_all db (up_stmts (p_changes p)) = DownModel.Ok db1 ->
-        exists db2, exec_all db1 (down_stmts (p_changes p)) = DownModel.Ok db2 /\
+        exec_all db (up_stmts (p_changes p)) = Ok db1 ->
+        exists db2, exec_all db1 (down_stmts (p_changes p)) = Ok db2 /\
                     SchemaDiff (inspect db2) (inspect db) = [] = SchemaDiff (inspect db) (inspect db2).
 
-    Proved here (partial): for every well-formed engine state [d] (rows included, any
-    [foreign_keys] / transaction flag), every [from], every well-formed desired schema [to] and
-    every change list WITHOUT DropTable / DropIndex (AddTable with any indexes, ModifyTable with
-    AddColumn / AddIndex and whatever else the planner accepts), whenever the planner flags the
-    plan reversible and the up statements execute, the down statements execute too and the engine is
-    back in EXACTLY the state it started from (catalogue, rows and flags; hence every inspection
-    and every diff of the two is that of a state with itself).  Proof: per-change inverse lemmas
-    (DROP TABLE after CREATE TABLE, DROP INDEX after CREATE INDEX, DROP COLUMN after ADD COLUMN, each
-    from the success of the forward statement and the state invariant [db_wf]) composed by
-    induction over the change list; the planner lemma [plan_additive] shows a reversible plan of
+    It is false of the faithful model, in two ways that both reproduce on the real code
+    (C17_reversible_sound_refuted below, known findings C17-down-drop-table-blocked and
+    C17-autoindex-drop-wrong-index).  What is proved (partial):
+
+    (a) [C17_reversible_sound_partial]: every well-formed engine state [d] (rows included, any
+        [foreign_keys] / transaction flag), every [from], every well-formed desired schema [to] and
+        every change list WITHOUT DropTable (AddTable with any indexes; ModifyTable with AddColumn /
+        AddIndex / DropIndex / modified indexes and whatever else the planner accepts): when the
+        planner flags the plan reversible and the up statements execute, the down statements
+        execute too and the engine is back in a state that is [sim] to the start: the same tables in
+        the same order, identical in everything (columns, keys, foreign keys, checks, options, ROWS,
+        flags) but the index lists, which agree up to order and [inspect_index]; hence the inspected
+        schemas are [schema_perm] and the differ reports nothing between them
+        ([C17_sim_no_difference], through C02_perm_empty).
+        Side conditions, each a fact about the state at the moment a change executes ([conds]):
+        the reverse of DROP INDEX n re-creates an index that inspects like the one dropped
+        ([faithful_idx]: true when the planner is given the inspection of the current database and
+        the index is not an inline-UNIQUE autoindex -- the exception is the known finding), and a
+        table the plan creates can be dropped again ([droppable]: foreign_keys off, or no ON DELETE
+        action on a referencing table is uncompilable -- the other exception).
+    (b) [C17_reversible_sound_additive_exact]: without DropIndex either, the final state IS the
+        start state (catalogue, rows and flags); no condition but [droppable].
+    Proof: per-change inverse lemmas (DROP TABLE after CREATE TABLE, DROP INDEX after CREATE INDEX,
+    DROP COLUMN after ADD COLUMN, CREATE INDEX after DROP INDEX), congruence of the four reverse
+    statements for [sim], composition by induction over the change list with the invariants
+    [db_wf] / [names_ok]; the planner lemmas [plan_additive] / [plan_arms] show a reversible plan of
     such a list has no other arm (the table-rebuild path is never flagged).
 
-    Missing: the DropTable and DropIndex arms, whose reverse re-creates the object from the
-    *inspected* current schema -- restoring the catalogue only up to the order of tables / indexes,
-    the loss of rows and the renaming of inline UNIQUE constraints (see C17_*_refuted below and
-    notes/C17.md); MySQL / PostgreSQL (no engine in the sandbox). *)
+    Missing: the DropTable arm, whose reverse re-creates the table from the *inspected* current
+    schema -- table moved to the end, rows lost, inline UNIQUE constraints renamed to named
+    indexes (harness: "restored-up-to-autoindex-name"); MySQL / PostgreSQL (no engine in the
+    sandbox: items 2-4 only). *)
 Theorem C17_reversible_sound_partial :
+  forall (from to : xschema) (cs : list schange) (p : plan) (d d1 : db),
+  db_wf d = true -> names_ok d -> xschema_wf to = true -> no_drop_table cs = true ->
+  PlanChanges from to cs = Some p -> p_reversible p = true ->
+  conds d (p_changes p) ->
+  exec_all d (up_stmts (p_changes p)) = EngineModel.Ok d1 ->
+  exists d2, exec_all d1 (down_stmts (p_changes p)) = EngineModel.Ok d2 /\ sim d d2.
+Proof. exact reversible_sound_no_drop_table. Qed.
+Print Assumptions C17_reversible_sound_partial.
+
+(** [sim] states cannot be told apart by inspection + diff. *)
+Theorem C17_sim_no_difference :
+  forall (name : str) (skip : tag -> bool) (d d2 : db),
+  sim d d2 ->
+  schema_perm (inspect_schema name d) (inspect_schema name d2) /\
+  (DiffProofs.wf_schema DiffSqliteProofs.sqlite_dwf (inspect_schema name d) ->
+   SchemaDiff sqlite_driver skip (inspect_schema name d) (inspect_schema name d2) = Some []).
+Proof.
+  intros name skip d d2 S. split; [exact (sim_schema_perm name d d2 S)|exact (sim_diff_empty name skip d d2 S)].
+Qed.
+Print Assumptions C17_sim_no_difference.
+
+(** engine level, for any list of planned changes of the four shapes ([arms_ok]) *)
+Theorem C17_arms_sound :
+  forall (l : list pchange) (d d1 : db),
+  db_wf d = true -> names_ok d -> arms_ok d l ->
+  exec_all d (up_stmts l) = EngineModel.Ok d1 ->
+  exists d2, exec_all d1 (down_stmts l) = EngineModel.Ok d2 /\ sim d d2.
+Proof. exact arms_sound. Qed.
+Print Assumptions C17_arms_sound.
+
+Theorem C17_reversible_sound_additive_exact :
   forall (from to : xschema) (cs : list schange) (p : plan) (d d1 : db),
   db_wf d = true -> xschema_wf to = true -> no_drops cs = true ->
   PlanChanges from to cs = Some p -> p_reversible p = true ->
+  (droppable_along d (p_changes p) \/ db_fk d = false) ->
   exec_all d (up_stmts (p_changes p)) = EngineModel.Ok d1 ->
   exec_all d1 (down_stmts (p_changes p)) = EngineModel.Ok d.
-Proof. exact reversible_sound_additive. Qed.
-Print Assumptions C17_reversible_sound_partial.
-
-(** engine level, for any list of planned changes of the three additive shapes *)
-Theorem C17_additive_changes_sound :
-  forall (l : list pchange) (d d1 : db),
-  db_wf d = true ->
-  forallb additive l = true -> forallb (fun pc => stmt_wf (pc_cmd pc)) l = true ->
-  exec_all d (up_stmts l) = EngineModel.Ok d1 ->
-  exec_all d1 (down_stmts l) = EngineModel.Ok d.
-Proof. exact additive_sound. Qed.
-Print Assumptions C17_additive_changes_sound.
+Proof.
+  intros from to cs p d d1 W XW ND HP R [DA|F] E.
+  - exact (reversible_sound_additive from to cs p d d1 W XW ND HP R DA E).
+  - exact (reversible_sound_additive_fk_off from to cs p d d1 W XW ND HP R F E).
+Qed.
+Print Assumptions C17_reversible_sound_additive_exact.
 
 Definition ex_col (n : str) : column := mkColumn n 2 [105;110;116]%N true None None None.
 Definition ex_table : xtable :=
@@ -83,6 +127,59 @@ Example C17_reversible_sound_nonvacuous :
   | None => False
   end.
 Proof. vm_compute. repeat split; discriminate. Qed.
+
+(** non-vacuity of the DROP INDEX arm: the planner is given the inspection of the state; the
+    plan DROP INDEX ix is flagged reversible, runs, and its down statement CREATE UNIQUE INDEX ix
+    brings back a state that inspects exactly like the start. *)
+Definition ex_table_noidx : xtable :=
+  mkX (mkTable [116]%N false false [ex_col [97]%N; ex_col [98]%N] None [] [] []) [].
+Example C17_drop_index_nonvacuous :
+  match exec_all empty_db [SCreateTable ex_table_noidx []; SCreateIndex [116]%N
+          (mkIndex [105;120]%N true [mkPart 0 false (Some [98]%N) None] None None None)] with
+  | EngineModel.Ok d =>
+      match PlanChanges (inspect d) [ex_table_noidx] [ModifyTable [116]%N [DropIndex [105;120]%N]] with
+      | Some p =>
+          p_reversible p = true /\ length (p_changes p) = 1%nat /\
+          match exec_all d (up_stmts (p_changes p)) with
+          | EngineModel.Ok d1 =>
+              inspect d1 <> inspect d /\
+              match exec_all d1 (down_stmts (p_changes p)) with
+              | EngineModel.Ok d2 => inspect d2 = inspect d
+              | EngineModel.Err _ => False
+              end
+          | EngineModel.Err _ => False
+          end
+      | None => False
+      end
+  | EngineModel.Err _ => False
+  end.
+Proof. vm_compute. repeat split; discriminate. Qed.
+
+(** The full statement is false: a child table whose foreign keys point at two missing tables
+    [p] (ON DELETE CASCADE) and [g]; the plan adds [p]; with foreign_keys on the plan is flagged
+    reversible and executes, and its down statement DROP TABLE p is refused.  Real SQLite:
+    "no such table: main.g" (harness cases special:dangling-parent, known finding
+    C17-down-drop-table-blocked). *)
+Definition ex_child : ctable :=
+  mkCT (mkX (mkTable [99]%N false false [ex_col [97]%N; ex_col [98]%N] None []
+               [mkFk [102;49]%N [[97]%N] [112]%N [[97]%N] [] [67;65;83;67;65;68;69]%N;
+                mkFk [102;50]%N [[98]%N] [103]%N [[98]%N] [] []] []) []) [] [].
+Definition ex_parent : xtable :=
+  mkX (mkTable [112]%N false false [ex_col [97]%N] None [] [] []) [].
+Theorem C17_reversible_sound_refuted :
+  exists (from to : xschema) (cs : list schange) (p : plan) (d d1 : db) (e : err),
+    db_wf d = true /\ names_ok d /\ xschema_wf to = true /\
+    PlanChanges from to cs = Some p /\ p_reversible p = true /\
+    exec_all d (up_stmts (p_changes p)) = EngineModel.Ok d1 /\
+    exec_all d1 (down_stmts (p_changes p)) = EngineModel.Err e.
+Proof.
+  exists [], [ex_parent], [AddTable [112]%N].
+  eexists. exists (mkDB [ex_child] true false). eexists. exists EFKViolation.
+  split; [reflexivity|]. split; [|split; [reflexivity|]].
+  - unfold names_ok. vm_compute. repeat constructor; simpl; intuition discriminate.
+  - split; [vm_compute; reflexivity|]. split; [reflexivity|]. split; vm_compute; reflexivity.
+Qed.
+Print Assumptions C17_reversible_sound_refuted.
 
 (** ** 2. The flag (sql/internal/sqlx/plan.go: SetReversible)
 
